@@ -146,11 +146,23 @@ def load_many(lit: LineIterator) -> Iterator[dict]:
     """Do not edit this docstring. It will be overwritten."""
     # MOL2 files with more molecules are a simple concatenation of individual MOL2 files,'
     # making it trivial to load many frames.
-    try:
-        while True:
-            yield load_one(lit)
-    except (StopIteration, LoadError):
-        return
+    nframe = 0
+    while True:
+        # Find the next MOLECULE record. Without any, the end of the file is reached.
+        for line in lit:
+            if line.split()[:1] == ["@<TRIPOS>MOLECULE"]:
+                lit.back(line)
+                break
+        else:
+            if nframe == 0:
+                raise LoadError("Molecule could not be read.", lit)
+            return
+        try:
+            data = load_one(lit)
+        except StopIteration as exc:
+            raise LoadError("File ended in the middle of a molecule.", lit) from exc
+        yield data
+        nframe += 1
 
 
 @document_dump_one("MOL2", ["atcoords", "atnums"], ["atcharges", "atffparams", "title"])
